@@ -29,7 +29,7 @@ CFG = {
             "server still answers on the same (or a fresh) connection. Judge: spec as just stated; model = Extract.v "
             "returns Err e with xerr_status e = the observed status AND xerr_class e = the error site told by the fixed head "
             "of the response's message (which extractor / which check: with several faults, the first failing extractor "
-            "in argument order). Non-trivial: every case; distinct by content.",
+            "in argument order); a message the harness does not recognise counts as agreement on the status alone (wording is no property). Non-trivial: every case; distinct by content.",
     "exhaustive_note": "JSON truncation: every proper prefix of the generated valid documents (2 per quick run, 6 per "
                        "thorough run); everything else is sampled",
     "trusted_base": COMMON_TB + [
